@@ -139,8 +139,29 @@ def r2_filter_dominance(ctx, rep):
             return [d for v in t.values for d in disjuncts(v)]
         return [t]
     negs = [d for t, pol, _ in ap.conds if not pol for d in disjuncts(t)]
+    params = {a.arg for a in fn.args.args + fn.args.kwonlyargs}
+    callers = [c for _m, f2 in py.all_functions() for c in py.walk_calls(f2) if call_name(c).split(".")[-1] == fn.name]
+
+    def is_intrinsics(e: ast.AST) -> bool:
+        """the table itself, or a name that can hold nothing else: a local copy, or an optional parameter that no call site
+        supplies and that is replaced by the table when absent"""
+        if ast.unparse(e).split(".")[-1] == "INTRINSICS":
+            return True
+        if not isinstance(e, ast.Name):
+            return False
+        vals = [v for _t, v in astq.assignments(fn, e.id) if v is not None]
+        if e.id in params:
+            if any(astq.bind_args(c, fn, skip_self=True).get(e.id) is not None for c in callers):
+                return False
+            pos = fn.args.args
+            dflt = dict(zip([a.arg for a in pos[len(pos) - len(fn.args.defaults):]], fn.args.defaults))
+            dflt.update({a.arg: d for a, d in zip(fn.args.kwonlyargs, fn.args.kw_defaults) if d is not None})
+            d = dflt.get(e.id)
+            if d is None or not ((isinstance(d, ast.Constant) and d.value is None) or ast.unparse(d).split(".")[-1] == "INTRINSICS"):
+                return False
+        return bool(vals) and all(ast.unparse(v).split(".")[-1] == "INTRINSICS" for v in vals)
     intr = [d for d in negs if isinstance(d, ast.Compare) and len(d.ops) == 1 and isinstance(d.ops[0], ast.In)
-            and ast.unparse(d.comparators[0]).split(".")[-1] == "INTRINSICS" and is_last_of_chain(d.left)]
+            and is_intrinsics(d.comparators[0]) and is_last_of_chain(d.left)]
     rep.ob("append dominated by the INTRINSICS filter on the last chain element", bool(intr),
            "`<last element> in INTRINSICS` -> continue precedes the append" if intr else
            "the intrinsic/keyword filter no longer dominates self.calls.append", py.nloc(ap.node))
